@@ -146,10 +146,10 @@ TEXT.update({
  },
  "C09": {
   "engine": "M",
-  "technique": "symbolic execution of the rustc MIR of FileMetaTable::{update_information_group_length, into_element_iter} and of the element encoder (StatefulEncoder + Explicit VR LE codec) with z3; the written group is walked by an independent PS3.5 parser and counted",
+  "technique": "symbolic execution of the rustc MIR of FileMetaTable::{update_information_group_length, into_element_iter} and of the element encoder (StatefulEncoder + Explicit VR LE codec) with z3; the written group is walked by an independent PS3.5 parser and counted; symbolic execution of the MIR of <FileMetaTable as ApplyOp>::apply and its helpers followed by the MIR of calculate_information_group_length on the resulting table",
   "level": "For tables of concrete shape (which of the 6 optional attributes are present, length 0..5 of every string, odd and even) with symbolic characters, the recorded File Meta Information Group Length equals the number of "
-           "bytes that follow the group length element when every element the table yields is written, and the group parses as Explicit VR LE. Each instance is compared with FileMetaTable::write run natively.",
-  "note": "group length clause only: reading the group back, attribute operations (ApplyOp), the builder's defaults and preamble detection are outside; the data set writer's token plumbing between into_element_iter and the encoder is covered by C04, not re-executed here",
+           "bytes that follow the group length element when every element the table yields is written, and the group parses as Explicit VR LE. Each instance is compared with FileMetaTable::write run natively. Operations: after one attribute operation (9 actions x required / optional string attributes, optional attributes absent or present, symbolic new text) on a table with a correct length, the recorded length equals calculate_information_group_length() of the table as the operation left it, whether it answered Ok or Err (native: apply, write, count).",
+  "note": "group length clause (tables built directly and after one attribute operation) only: reading the group back, the builder's defaults and preamble detection are outside; the data set writer's token plumbing between into_element_iter and the encoder is covered by C04, not re-executed here",
  },
  "C12": {
   "engine": "M",
